@@ -132,6 +132,8 @@ def spec_check(pid, cases, what):
         for t, (e, g) in enumerate(zip(exp, got)):
             if e == "skip":
                 continue
+            if g is None and c.desc[0] in ("Welford", "Vst", "Vsct") and t + 1 == c.desc[1] - 1:
+                continue      # C08 allows these three to become ready at N-1 or at N values
             if e != g:
                 small = shrink_spec(c, f, t)
                 out.append(viol("%s-spec-%s" % (pid.lower(), c.desc[0].lower()),
